@@ -23,6 +23,8 @@ from common import q, lst, natlit, zlit, optlit, blit
 IMPORTS = "From Verif Require Import model.Base model.SyncHB.\nOpen Scope Q_scope.\n"
 
 PRELUDE = r"""
+(* +-inf reported by a trial: embedded as +-2^1100, beyond every finite binary64 value *)
+Definition QINF : Q := inject_Z (2 ^ 1100).
 Definition tids_eqb := list_eqb tid_eqb.
 Definition top_case := (mode * list (tid * mval) * nat * list tid * list tid)%type.
 Definition chk_top (c : top_case) : bool :=
@@ -180,7 +182,14 @@ def isnan(x):
 
 
 def mval(x):
-    return "NaN" if isnan(x) else "(Val %s)" % q(float(x))
+    """metric literal of the model: NaN = failed; +-inf, which a trial may REPORT, are valid extreme values: the
+    model's metrics are rationals, and +-inf are embedded order-preservingly as +-QINF = +-2^1100, beyond every
+    finite float (|x| < 2^1024), so all comparisons <, <=, == among reported values are the same"""
+    if isnan(x):
+        return "NaN"
+    if isinstance(x, float) and math.isinf(x):
+        return "(Val QINF)" if x > 0 else "(Val (- QINF))"
+    return "(Val %s)" % q(float(x))
 
 
 def tidlit(t):
@@ -213,12 +222,16 @@ def sir_dict(s):
 
 
 def jnum(x):
-    """JSON-able metric (NaN -> 'nan')"""
-    return "nan" if isnan(x) else x
+    """JSON-able metric (NaN -> 'nan', +-inf -> 'inf' / '-inf')"""
+    if isnan(x):
+        return "nan"
+    if isinstance(x, float) and math.isinf(x):
+        return "inf" if x > 0 else "-inf"
+    return x
 
 
 def unj(x):
-    return float("nan") if x == "nan" else x
+    return float(x) if x in ("nan", "inf", "-inf") else x
 
 
 # ------------------------------------------------------------------ independent checker
@@ -445,6 +458,10 @@ def rss_valid(rss):
 
 
 def gen_metric(rng, style):
+    if rng.random() < 0.06:
+        # a diverged training run REPORTS an infinite metric at its rung level: a valid result, the best or the
+        # worst of the rung depending on the mode — not a failure (failures are NaN)
+        return float("inf") if rng.random() < 0.5 else float("-inf")
     if style == "grid":
         return float(rng.randint(0, 3))
     if style == "grid_fine":
